@@ -18,7 +18,7 @@ THEOREMS = ["c03_collect_errors_keeps_failures", "c03_interpretation_per_pair", 
             "c03_funnel_no_spurious_foul", "c03_conduct_reads_each_component_once",
             "c03_collector_cancelled_only_after_a_failure", "c03_failure_free_play_exits_by_the_verdict",
             "c03_run_keeps_every_failure", "c03_run_exit_iff_play_or_operation_failed", "c03_upload_iff_not_interrupted",
-            "c03_clear_only_on_success", "c03_artifacts_removed_iff"]
+            "c03_clear_only_on_success", "c03_artifacts_removed_iff", "c03_exit_iff_funnel_error_or_operation_failed"]
 REFUTED = ["c03_funnel_every_component_error_kept_refuted", "c03_pinned_code_cancelled_the_collector_refuted"]
 
 HEADER = ("From Shk Require Import Base.Prelude Model.Verdict Corr.C03.\nFrom Coq Require Import String.\n"
